@@ -374,7 +374,8 @@ def reuse_stream(rng, quick):
             prior.append(pk)
         if not isinstance(kw["radii"], str) or kw["radii"] != "covalent":
             kw["overlap_threshold"] = -3.0
-        rcases.append({"id": k, "structure": st, "alt_pbc": alt, "kwargs": kw, "prior": prior, "meta": meta})
+        prior_structures = [h for h in ("translated", "permuted", "other-element") if rng.random() < 0.5]
+        rcases.append({"id": k, "structure": st, "alt_pbc": alt, "kwargs": kw, "prior": prior, "prior_structures": prior_structures, "meta": meta})
     chunks = [rcases[i::8] for i in range(8)]
     routs = C.impl_run_parallel("sbc_reuse_impl", [{"cases": ch} for ch in chunks if ch], jobs=8)
     rrows = [r for o in routs for r in o["rows"]]
